@@ -78,8 +78,10 @@ Proof.
   destruct s as [r|r|r|r|r]; cbn [step_rng step_tokens]; intros H.
   - apply Forall_cons; [exact H|apply Forall_nil].
   - apply Forall_cons; [apply shift_start_inside; exact H|apply Forall_nil].
-  - apply Forall_cons; [apply shift_end_inside, shift_start_inside; exact H|apply Forall_nil].
-  - apply Forall_cons; [apply shift_end_inside, shift_start_inside; exact H|apply Forall_nil].
+  - unfold idx_token. destruct (Z.ltb _ _); [|apply Forall_nil].
+    apply Forall_cons; [apply shift_end_inside, shift_start_inside; exact H|apply Forall_nil].
+  - unfold idx_token. destruct (Z.ltb _ _); [|apply Forall_nil].
+    apply Forall_cons; [apply shift_end_inside, shift_start_inside; exact H|apply Forall_nil].
   - apply Forall_nil.
 Qed.
 
